@@ -52,7 +52,6 @@ func optStr(t *rapid.T, l string) *string {
 	return nil
 }
 
-
 // Opt steers the file generator.
 type Opt struct {
 	MinBlocks, MaxBlocks int
@@ -453,9 +452,9 @@ func (f *File) Renumber() {
 // classification in evidence).
 type Features struct {
 	DenseInfo, CVersion, CTimestamp, CChangeset, CUID, CUser, CVisible, KeyVals bool
-	HasDense, HasWays, HasRels                                                 bool
-	WayInfo, WayTags, WayLoc, RelInfo, RelTags, RelMembers                     bool
-	Gran, Off, DGran, Raw                                                      bool
+	HasDense, HasWays, HasRels                                                  bool
+	WayInfo, WayTags, WayLoc, RelInfo, RelTags, RelMembers                      bool
+	Gran, Off, DGran, Raw                                                       bool
 }
 
 func (b *Block) Features() Features {
